@@ -76,7 +76,7 @@ def run_level(ctx, binp, q):
             seen.add(k)
             cases.append(r)
     if q:
-        keep = [["silent"], ["partial"], ["pipelined"], ["earlyreply"], ["idle", "inflight", "silent"], ["idle", "inflight", "partial", "silent"], ["inflight", "pipelined"]]
+        keep = [["silent"], ["partial"], ["pipelined"], ["earlyreply"], ["upgrading"], ["inflight", "upgrading"], ["idle", "inflight", "silent"], ["idle", "inflight", "partial", "silent"], ["inflight", "pipelined"]]
         cases = [r for r in cases if sorted(r["clients"]) in keep]
     if not cases:
         raise vlib.Infra("LifecycleRun generated no case")
